@@ -334,6 +334,116 @@ type vfMqRig struct {
 	fenceNo int
 	// evidence counters
 	SawFanout, SawDelete, SawStore int
+	// cluster bed (vfMqNewCluster): the publish endpoints of the other members, in the order the
+	// member list reports them; nil for a single broker
+	peerMu   sync.Mutex
+	peerURLs []string
+	httpSrv  *httptest.Server
+}
+
+// peers is what the broker's memberURL function returns.
+func (r *vfMqRig) peers() []string {
+	r.peerMu.Lock()
+	defer r.peerMu.Unlock()
+	return append([]string(nil), r.peerURLs...)
+}
+
+// vfMqTransferLog wraps the transport of http.DefaultClient (which Broker.requestTransfer uses)
+// without changing what it does: it only counts requests and transport-level failures, so that a
+// forwarded publish that failed for reasons of the machine (no port, connection refused under load)
+// is reported as VF-INCONCLUSIVE and never mistaken for a message the broker did not forward.
+type vfMqTransferLog struct {
+	inner     http.RoundTripper
+	attempts  int64
+	transport int64 // RoundTrip returned an error
+}
+
+func (l *vfMqTransferLog) RoundTrip(req *http.Request) (*http.Response, error) {
+	atomic.AddInt64(&l.attempts, 1)
+	resp, err := l.inner.RoundTrip(req)
+	if err != nil {
+		atomic.AddInt64(&l.transport, 1)
+	}
+	return resp, err
+}
+
+var (
+	vfMqTransfers     = &vfMqTransferLog{inner: http.DefaultTransport}
+	vfMqTransfersOnce sync.Once
+)
+
+// vfMqCluster is a set of brokers that are each other's members, as in a multi-node deployment:
+// every member's publish endpoint is served by a real HTTP server on a loopback port, and every
+// member's memberURL function reports the endpoints of all the others.
+type vfMqCluster struct {
+	Rigs []*vfMqRig
+}
+
+// vfMqNewCluster starts n members. order[i] lists the other members in the order member i's
+// member list reports them (nil: ascending).
+func vfMqNewCluster(n int, order [][]int) (*vfMqCluster, error) {
+	vfMqTransfersOnce.Do(func() { http.DefaultClient.Transport = vfMqTransfers })
+	cl := &vfMqCluster{}
+	for i := 0; i < n; i++ {
+		r, err := vfMqNewRig(nil)
+		if err != nil {
+			cl.Close()
+			return nil, err
+		}
+		cl.Rigs = append(cl.Rigs, r)
+		var l net.Listener
+		for attempt := 0; attempt < 40; attempt++ {
+			if attempt > 0 {
+				time.Sleep(time.Duration(attempt) * 50 * time.Millisecond)
+			}
+			if l, err = net.Listen("tcp", "127.0.0.1:0"); err == nil {
+				break
+			}
+		}
+		if err != nil {
+			cl.Close()
+			return nil, err
+		}
+		// (httptest.NewUnstartedServer would panic when no port is free)
+		r.httpSrv = &httptest.Server{Listener: l, Config: &http.Server{Handler: http.HandlerFunc(r.broker.httpTopicsPublishHandler)}}
+		r.httpSrv.Start()
+	}
+	for i, r := range cl.Rigs {
+		var urls []string
+		if order != nil {
+			for _, j := range order[i] {
+				urls = append(urls, cl.Rigs[j].httpSrv.URL+"/apis/v1/mqttproxy/vfmq/topics/publish")
+			}
+		} else {
+			for j, o := range cl.Rigs {
+				if j != i {
+					urls = append(urls, o.httpSrv.URL+"/apis/v1/mqttproxy/vfmq/topics/publish")
+				}
+			}
+		}
+		r.peerMu.Lock()
+		r.peerURLs = urls
+		r.peerMu.Unlock()
+	}
+	return cl, nil
+}
+
+// TransferFailures: transport-level failures of forwarded publishes so far (whole process).
+func vfMqTransferFailures() int64 { return atomic.LoadInt64(&vfMqTransfers.transport) }
+
+// Close stops the HTTP servers, then the brokers and their clients.
+func (cl *vfMqCluster) Close() {
+	for _, r := range cl.Rigs {
+		if r.httpSrv != nil {
+			r.httpSrv.Close()
+		}
+	}
+	for _, r := range cl.Rigs {
+		r.Close()
+	}
+	if t, ok := http.DefaultTransport.(*http.Transport); ok {
+		t.CloseIdleConnections()
+	}
 }
 
 func vfMqNewRig(spec *Spec) (*vfMqRig, error) {
@@ -349,7 +459,7 @@ func vfMqNewRig(spec *Spec) (*vfMqRig, error) {
 		if attempt > 0 {
 			time.Sleep(time.Duration(attempt) * 50 * time.Millisecond)
 		}
-		r.broker = newBroker(spec, r.store, &vfMqMapper{rec: r.rec}, func(string, string) ([]string, error) { return nil, nil })
+		r.broker = newBroker(spec, r.store, &vfMqMapper{rec: r.rec}, func(string, string) ([]string, error) { return r.peers(), nil })
 	}
 	if r.broker == nil {
 		return nil, errors.New("newBroker returned nil (cannot listen)")
